@@ -130,7 +130,8 @@ def step (s : State) : Op → Res Out × State
     match docs with
     | none => (.err .badInput, s)
     | some ds => createWith s c (assignIds ds fresh)
-  | .exportDocs c => withColl s c fun coll => (.ok (.docs (findAll likeFn fnFam { coll := c } coll)), s)
+  | .exportDocs c => withColl s c fun coll =>
+    (.ok (.docs ((findAll likeFn fnFam { coll := c } coll).map jsonTypeDoc)), s)
 termination_by op => match op with
   | .save _ _ _ => 2 | .replaceById _ _ _ => 1 | .delete _ => 1 | _ => 0
 decreasing_by all_goals simp_wf <;> omega
